@@ -593,7 +593,8 @@ func (c *Ctx) c03Partition(vp *ssa.Function) {
 		}
 		return false
 	}
-	for _, f := range core.WithClosures(vp) {
+	for _, rf := range c.regionOf(vp, 2) {
+		f := rf.fn
 		if f == vp {
 			continue
 		}
